@@ -81,8 +81,9 @@ Definition merge_col (t1 t2 out : time) (reset : option time)
   | None, Some v2 => keep t2 v2 reset out
   | Some v1, None => keep t1 v1 reset out
   | Some v1, Some v2 =>
-      if (t1 + uoff v1) <? (t2 + uoff v2) then keep t2 v2 reset out
-      else keep t1 v1 reset out
+      (* !UpdateTime(t1,v1).After(UpdateTime(t2,v2)): ties go to the second argument *)
+      if (t2 + uoff v2) <? (t1 + uoff v1) then keep t1 v1 reset out
+      else keep t2 v2 reset out
   end.
 
 Fixpoint merge_cols (t1 t2 out : time) (reset : option time)
